@@ -52,8 +52,9 @@ class ScNonStatio(PDENonStatio, _Eq):
 
 
 class Scen:
-    def __init__(self, kind, B=2, k=1, tag="", hetero=None):
+    def __init__(self, kind, B=2, k=1, tag="", hetero=None, a_shape=()):
         self.kind, self.B, self.k = kind, B, k
+        self.a_shape = tuple(a_shape)
         self.d = 1
         self.dp = {"ODE": 1, "statio": 1, "nonstatio": 2}[kind]        # point dimension
         eqt = {"ODE": "ODE", "statio": "statio_PDE", "nonstatio": "nonstatio_PDE"}[kind]
@@ -69,7 +70,7 @@ class Scen:
     # ---- inputs
     def inputs(self, mask_shape=None, extra=()):
         B, dp = self.B, self.dp
-        inp = [Inp("th", (1,)), Inp("a", ()), Inp("b", ()),
+        inp = [Inp("th", (1,)), Inp("a", self.a_shape), Inp("b", ()),
                Inp("pts", (B,) if self.kind == "ODE" else (B, dp)),
                Inp("wd", ()), Inp("wi", ()), Inp("wo", ()), Inp("wn", ()), Inp("wb", ()),
                Inp("t0", ()), Inp("u0", (1,)), Inp("oin", (B, dp)), Inp("oval", (B, 1)),
